@@ -1,6 +1,9 @@
 package props
 
 import (
+	"fmt"
+	"go/token"
+
 	"aurora-verif/checker/core"
 
 	"golang.org/x/tools/go/ssa"
@@ -250,6 +253,67 @@ func c05(r *core.Run) {
 	for _, st := range fieldStores(from, S, "owner") {
 		r.Check("C05.I1", core.Key("C05.I1", from, "owner length"), st.Pos(), len(good) > 0 && core.OnlyBehind(from, st, good),
 			"the recovered owner is accepted only with the address length", "the owner is stored without the length check")
+	}
+	c05Recover(r)
+}
+
+// c05Recover (G3): crypto.Recover hands btcec.RecoverCompact a recovery byte that is the
+// signature's own last byte, unmodified, and proven to lie in 27..30 — the values Sign
+// emits. btcec also accepts 31..34 (same key, compressed form) and a normalising Recover
+// would accept further spellings: either gives one signature two valid serialisations, so a
+// single-byte change of a signed chunk would leave it valid.
+func c05Recover(r *core.Run) {
+	fn := r.W.Func("pkg/crypto", "Recover")
+	if fn == nil {
+		r.Fatal("unresolved anchor pkg/crypto.Recover")
+		return
+	}
+	r.Saw(core.FuncName(fn))
+	r.Eval(core.EdgeCount(fn))
+	sig := fn.Params[0]
+	calls := core.Calls(fn, "github.com/btcsuite/btcd/btcec.RecoverCompact")
+	r.Floor("C05.G3", "RecoverCompact calls in crypto.Recover", len(calls), 1)
+	ia := core.Intervals(fn)
+	for _, c := range calls {
+		buf := core.Strip(core.Common(c).Args[1])
+		// stores into element 0 of the buffer handed to RecoverCompact
+		n := 0
+		okAll := true
+		why := "no store of the recovery byte into the buffer's first element was found"
+		core.EachInstr(fn, func(_ *ssa.BasicBlock, _ int, in ssa.Instruction) {
+			st, ok := in.(*ssa.Store)
+			if !ok {
+				return
+			}
+			el, ok := st.Addr.(*ssa.IndexAddr)
+			if !ok || core.Strip(el.X) != buf {
+				return
+			}
+			if k, isC := core.ConstInt(el.Index); !isC || k != 0 {
+				return
+			}
+			n++
+			// identity: the stored value is a load of signature[64]
+			ld, isLd := st.Val.(*ssa.UnOp)
+			var src *ssa.IndexAddr
+			if isLd && ld.Op == token.MUL {
+				src, _ = ld.X.(*ssa.IndexAddr)
+			}
+			if src == nil || src.X != ssa.Value(sig) {
+				okAll, why = false, "the recovery byte handed to btcec is not the signature's own last byte (it is rewritten on some path): several spellings of the byte recover the same key"
+				return
+			}
+			if k, isC := core.ConstInt(src.Index); !isC || k != 64 {
+				okAll, why = false, "the recovery byte is not taken from signature[64]"
+				return
+			}
+			iv := ia.ValueAt(st.Val, st)
+			if ia.Incomplete || iv.Lo < 27 || iv.Hi > 30 {
+				okAll, why = false, fmt.Sprintf("the recovery byte reaches btcec with range [%d,%d]: btcec reads 31..34 as the compressed form of 27..30 and recovers the same key, so changing that one byte of a signed chunk leaves it valid", iv.Lo, iv.Hi)
+			}
+		})
+		r.Check("C05.G3", core.Key("C05.G3", fn, "recovery byte is signature[64], within 27..30"), c.Pos(), n > 0 && okAll,
+			"the recovery byte given to btcec is the signature's last byte itself and is proven to be one of 27..30", why)
 	}
 }
 
